@@ -1,6 +1,6 @@
 """C17 — provenance metadata (path, line, comments, value lines) matches the source file."""
 import re
-import vlib, grammar, gens, gramlib
+import vlib, grammar, gens, gramlib, trees
 from checklib import Scenario
 
 RULE = ("conventional files with comment blocks of any length before keys, trailing comments, multi-line values, sections, "
@@ -8,7 +8,7 @@ RULE = ("conventional files with comment blocks of any length before keys, trail
         "comment before, comment after, value lines) is compared with the meaning the Coq grammar assigns (expected entries: "
         "theorem C02_parse gives line/comments/values, C17_block their relation to the lines of the file); "
         "files with values of several lines in every accepted shape (quoted with text, blanks or a comment behind the closing "
-        "quote; continuation lines with trailing blanks; blank-only lines below an entry) compared with the model; econf_getPath for single files (absolute also for relative names) and \"\" for merged results; distinct by bytes")
+        "quote; continuation lines with trailing blanks; blank-only lines below an entry) compared with the model; results of layered reads whose later files have or have not any entry (path and extended values through the model); econf_getPath for single files (absolute also for relative names) and \"\" for merged results; distinct by bytes")
 
 def gen(rng, tier):
     n = 900 if tier == "quick" else 30000
@@ -60,6 +60,14 @@ def gen(rng, tier):
                 lines.append(k + d + b"plain" + sp())
         data = b"\n".join(lines) + rng.choice([b"\n", b"\n", b"", b"\n   \n"])
         res.append(Scenario([gens.parse_cmd(0, b"/g/m.conf", data, dl, cm), "getall 0", "dump 0"], tags=("multiline",)))
+    # results of layered reads: "" as path and as file of every extended value, whatever the later files contain
+    for _ in range(n // 3):
+        later = [rng.choice([b"", b"# only a comment\n", b"\n\n", b"[empty]\n", b"k9=drop\n", b"[A]\nk1=over\n"]) for _ in range(rng.randrange(1, 4))]
+        cmds = [trees.fsdir(b"/usr/etc/foo.conf.d"), trees.fsdir(b"/etc/foo.conf.d"), trees.fsfile(b"/usr/etc/foo.conf", b"k1=main\n[A]\n# c\nk1=a # t\n")]
+        for j, c in enumerate(later):
+            cmds.append(trees.fsfile(rng.choice([b"/usr/etc", b"/etc"]) + b"/foo.conf.d/%d0-x.conf" % j, c))
+        cmds += ["readdirs 0 x2f7573722f657463 x2f657463 x666f6f x636f6e66 x3d x23", "path 0", "getall 0", "dump 0"]
+        res.append(Scenario(cmds, [False] * (len(later) + 3) + [True] * 4, tags=("merged",)))
     return res
 
 def oracle(s, ilines):
